@@ -93,10 +93,36 @@ def parseOp (p : Pair) (toks : List String) : Option Op :=
   | ["M", x] => do let x ← side? x; pure (.xfer x)
   | _ => none
 
+def showRes : Py Out → String
+  | .ok o => showOut o
+  | .error e => "exc " ++ e.name
+
+/-- `K x id a|n dest lid`: connect while the peer accepts on its socket `lid` -/
+def parseServed (p : Pair) (toks : List String) : Option (Side × Nat × Dest × Nat) :=
+  match toks with
+  | ["K", x, id, "a", a, lid] => do
+    let x ← side? x; let id ← id.toNat?; let a ← a.toNat?; let lid ← lid.toNat?
+    if id < (p.get x).n ∧ lid < (p.get (!x)).n ∧ a < 64 then pure (x, id, .addr a, lid) else none
+  | ["K", x, id, "n", h, lid] => do
+    let x ← side? x; let id ← id.toNat?; let nm ← parseHex h; let lid ← lid.toNat?
+    if id < (p.get x).n ∧ lid < (p.get (!x)).n then pure (x, id, .name nm, lid) else none
+  | _ => none
+
 def runOps : Pair → List String → List String → List String
   | _, [], acc => acc.reverse
   | p, o :: rest, acc =>
     if o = "D" then runOps p rest (("A{" ++ dumpLlc p.a ++ "} B{" ++ dumpLlc p.b ++ "}") :: acc) else
+    if o.startsWith "K " then
+      match parseServed p (o.splitOn " ") with
+      | none => runOps p rest ("bad-op" :: acc)
+      | some (x, id, dest, lid) =>
+        match apiConnectServed { p with wire := [] } x id dest lid with
+        | .error _ => (("abort" :: acc).reverse) ++ rest.map (fun _ => "skip")
+        | .ok (p1, r, a) =>
+          let res := showRes r ++ " & " ++ (match a with | some q => showRes q | none => "-")
+          let w := showWire p1.wire
+          runOps p1 rest ((if w = "" then res else res ++ " | " ++ w) :: acc)
+    else
     match parseOp p (o.splitOn " ") with
     | none => runOps p rest ("bad-op" :: acc)
     | some op =>
